@@ -63,6 +63,7 @@ func checkC11(c *core.Ctx, r *core.Report) {
 		"(3) HELD — every access (update, delete, lookup, range) of the shared tables allSegStores, AllUnrotatedSegmentInfo, RecentlyRotatedSegmentFiles, globalMetadata's maps/slices, allVirtualTables … happens with the table's lock must-held in the accessing function or in every caller (obligation propagated up the static call graph), writes need the write mode; insertion into allSegStores is re-checked under the write lock (no check-then-act); " +
 		"(5) HOLDWAIT — a goroutine started while its spawner holds a lock, and waited for (WaitGroup, channel) before the spawner releases it, never acquires that lock itself in any mode (a queued writer would block the worker, the spawner blocks the writer, the worker blocks the spawner); " +
 		"(6) a SegStore is removed from allSegStores only after its flush in the same write-locked section, on an unused-test made with the write lock held, or when its whole index is deleted; " +
+		"(7) ONCE — every block the searcher hands out is recorded in its processed-blocks set before the loop moves on (a segment that is in both snapshots is then returned once); " +
 		"(4) ORDER hand-over — the writer makes a segment visible as rotated before removing it from the unrotated table, and every function that snapshots both tables (segments or columns) reads the unrotated one first; the search chooses the open-segment block resolution only on the live answer of IsSegKeyUnrotated."
 	r.NotCovered = "data races on fields outside the guarded tables, at-most-once delivery when a segment is in both snapshots, equality with a sequential execution, liveness beyond lock-order acyclicity (channels, wait groups)"
 	a := lockAnalysis(c)
@@ -76,6 +77,7 @@ func checkC11(c *core.Ctx, r *core.Report) {
 	checkHandOver(c, r)
 	checkHoldWait(c, r, a, scope)
 	checkUnregister(c, r, a)
+	checkHandedOutOnce(c, r)
 }
 
 // ---------------------------------------------------------------------------
